@@ -5,6 +5,7 @@ CONSTANTS
   MaxFail = 4
   MaxReg = 2
   MaxRec = 12
+  GenCap <- SmallCap
   Presets <- PresetsFull
 INVARIANT Inv
 INVARIANT Emit
